@@ -18,6 +18,16 @@ def parseKind (s : String) : R Kind :=
   | "dens" => pure .dens
   | _ => .error s!"unknown kind {s}"
 
+/-- `evaluator : {period ≥ 1, ns ≥ 1, nc, bi, steps}` (an `ObservableEvaluator` in `callbacks=`) or absent -/
+def optEvalCb (j : Json) : R (Option EvalCb) :=
+  match fldOpt j "evaluator" with
+  | none => pure none
+  | some e => do
+    let p ← nat e "period"
+    let ns ← nat e "ns"
+    if p == 0 || ns == 0 then .error "evaluator: period and ns must be >= 1 (the error cases are not modelled)"
+    else return some ⟨p - 1, ns - 1, ← nat e "nc", ← nat e "bi", ← nat e "steps"⟩
+
 /-- one operation: `{"t": "<name>", …}` -/
 def parseOp (j : Json) : R Op := do
   let t ← jStr (← fld j "t")
@@ -34,7 +44,9 @@ def parseOp (j : Json) : R Op := do
   | "fit" =>
     return .fit (← nat j "slot")
       ⟨← nat j "N", ← nat j "epochs", ← nat j "start", ← nat j "posB", ← optNat j "negB", ← nat j "k",
-       ← optNat j "bases", ← nat j "arg"⟩
+       ← optNat j "bases", ← nat j "arg", ← optEvalCb j⟩
+  | "obsSample" =>
+    return .obsSample (← nat j "slot") (← nat j "k") (← nat j "num") (← optNat j "init") (← nat j "arg")
   | "eval" => return .eval (← nat j "slot") (← nat j "arg")
   | "metric" => return .metric (← nat j "slot") (← nat j "arg")
   | "rotate" => return .rotate (← nat j "slot") (← nat j "arg")
@@ -135,8 +147,8 @@ def countsOp (j : Json) : R Json := do
       (← optNat s "init")))]
   if let some s := fldOpt j "fit" then
     let c : FitCfg := ⟨← nat s "N", ← nat s "epochs", ← nat s "start", ← nat s "posB", ← optNat s "negB", ← nat s "k",
-       ← optNat s "bases", 0⟩
-    fields := fields ++ [("fit", nOut (fitDraws A c)),
+       ← optNat s "bases", 0, ← optEvalCb s⟩
+    fields := fields ++ [("fit", nOut (fitDraws A c)), ("fit_eval", nOut (evalDraws A c)),
       ("fit_ok", .bool ((fitCalls A c).2.isNone))]
   return Json.mkObj fields
 
